@@ -78,6 +78,15 @@ class DiagGen:
             else:
                 how = r.random()
                 call = App(Id(names[i - 1]), [Int(self.marker())])
+                if r.random() < 0.4:
+                    # a second argument built from a local variable (map, list, tuple, string, nested call): layouts put it
+                    # on its own line after the marker; the call still starts where it starts
+                    lv = "lv%d" % self.marker()
+                    body.append(Asg(lv, Int(7)))
+                    extra = r.choice([lambda: Map(["a", "b"], [Id(lv), Id(lv)]), lambda: Map(["a", "b"], [Int(1), Id(lv)]), lambda: List([Id(lv), Id(lv)]),
+                                      lambda: Tuple([Id(lv), Int(2)]), lambda: IStr([Str("<"), Id(lv), Str(">")]), lambda: Core("size", [List([Id(lv)])]),
+                                      lambda: Map(["a"], [Map(["b"], [Id(lv)])]), lambda: Bin("+", Id(lv), Id(lv))])()
+                    call = App(Id(names[i - 1]), [call["args"][0], extra])
                 if i in gens:
                     # the previous level is a generator: consume it with a for loop or with next
                     if r.random() < 0.6:
@@ -110,7 +119,7 @@ class DiagGen:
             for _ in range(r.randrange(0, 2)):
                 body += self.filler()
             body.append(Int(0))
-            xs.append(Asg(names[i], Fn([Param("_m")], Block(body), gen=gen_level)))
+            xs.append(Asg(names[i], Fn([Param("_m"), Param("_o", kind="def")], Block(body), defaults=[Null()], gen=gen_level)))
             for _ in range(r.randrange(0, 2)):
                 xs += self.filler()
         if depth == 0:
